@@ -37,7 +37,7 @@ CHECKS = {
                       {"name": "window-v2", "pkg": "pkg/lifecycle-poc/funnel", "harness": "c07w2", "run": "^TestVerifC07WindowV2$", "shards": 8, "shards_thorough": 16},
                       {"name": "parity", "pkg": "pkg/lifecycle/dlqparity", "harness": "c07par", "run": "^TestVerifC07Parity$", "shards": 8, "shards_thorough": 16},
                       {"name": "engine-parity", "pkg": "pkg/verifflow", "harness": "flow", "run": "^TestVerifC07EngineParity$", "instrument": True, "shards": 16, "shards_thorough": 16, "gomaxprocs": 1}]},
-    "C12": {"parts": [FLOW]},
+    "C12": {"parts": [FLOW, preempt(V1_POINTS + V2_POINTS + ["pkg/lifecycle/stream/source.go", "pkg/lifecycle/stream/base.go", "pkg/lifecycle-poc/funnel/worker.go"])]},
     "C10": {"parts": [FLOW, preempt(["pkg/lifecycle/service.go", "pkg/lifecycle-poc/service.go"])]},
     "C11": {"parts": [FLOW, preempt(["pkg/lifecycle/service.go", "pkg/lifecycle-poc/service.go"])]},
     "C13": {"parts": [FLOW, preempt(["pkg/lifecycle/stream/processor.go"])]},
